@@ -36,6 +36,36 @@ Theorem C16_rejected_is_404 : forall rt files path ims rng,
 Proof. exact rejected_is_404. Qed.
 Print Assumptions C16_rejected_is_404.
 
+(* ORDER OF EVALUATION: sanitise -> open / fallback -> dates -> range.  "Anything else is a 404"
+   holds whatever headers the request carries: If-Modified-Since absent / a date / malformed,
+   Range absent / valid / other unit / malformed -- the headers are not evaluated before a file
+   has been opened *)
+Theorem C16_rejected_is_404_whatever_headers : forall rt files path,
+  sanitize (length (r_prefix rt)) (has_fb rt) (r_dir rt) path = None ->
+  forall ims rng, serve rt files false path ims rng = R404.
+Proof. exact rejected_is_404_whatever_headers. Qed.
+Print Assumptions C16_rejected_is_404_whatever_headers.
+
+Theorem C16_missing_is_404_whatever_headers : forall rt files path fp,
+  sanitize (length (r_prefix rt)) (has_fb rt) (r_dir rt) path = Some fp ->
+  opened_file rt files fp = None ->
+  forall ims rng, serve rt files false path ims rng = R404.
+Proof. exact missing_is_404_whatever_headers. Qed.
+Print Assumptions C16_missing_is_404_whatever_headers.
+
+Theorem C16_not_found_independent_of_headers : forall rt files path ims rng ims' rng',
+  serve rt files false path ims rng = R404 -> serve rt files false path ims' rng' = R404.
+Proof. exact not_found_independent_of_headers. Qed.
+Print Assumptions C16_not_found_independent_of_headers.
+
+(* a malformed If-Modified-Since on a file that IS opened keeps its documented outcome *)
+Theorem C16_malformed_date_is_400 : forall rt files path rng fp f size mtime,
+  sanitize (length (r_prefix rt)) (has_fb rt) (r_dir rt) path = Some fp ->
+  opened_file rt files fp = Some (f, (size, mtime)) ->
+  serve rt files false path IInvalid rng = R400.
+Proof. exact malformed_date_is_400. Qed.
+Print Assumptions C16_malformed_date_is_400.
+
 Theorem C16_options_opens_nothing : forall rt files path ims rng,
   file_of (serve rt files true path ims rng) = None.
 Proof. exact options_opens_nothing. Qed.
@@ -93,23 +123,24 @@ Theorem C16_serve_response_ok : forall rt files path ims rng r f size mtime fp,
   sanitize (length (r_prefix rt)) (has_fb rt) (r_dir rt) path = Some fp ->
   opened_file rt files fp = Some (f, (size, mtime)) ->
   serve rt files false path ims rng = r ->
-  (exists t, ims = Some t /\ mtime_sec mtime <= t /\ r = R304 f) \/
-  (rng = RInvalid /\ r = R400) \/
-  (file_of r = Some f /\ response_ok size rng r = true).
+  (ims = IInvalid /\ r = R400) \/
+  (exists t, ims = IDate t /\ mtime_sec mtime <= t /\ r = R304 f) \/
+  (ims <> IInvalid /\ rng = RInvalid /\ r = R400) \/
+  (ims <> IInvalid /\ file_of r = Some f /\ response_ok size rng r = true).
 Proof. exact serve_response_ok. Qed.
 Print Assumptions C16_serve_response_ok.
 
 Theorem C16_not_modified_iff : forall rt files path ims rng fp f size mtime,
   sanitize (length (r_prefix rt)) (has_fb rt) (r_dir rt) path = Some fp ->
   opened_file rt files fp = Some (f, (size, mtime)) ->
-  (serve rt files false path ims rng = R304 f <-> exists t, ims = Some t /\ mtime_sec mtime <= t).
+  (serve rt files false path ims rng = R304 f <-> exists t, ims = IDate t /\ mtime_sec mtime <= t).
 Proof. exact not_modified_iff. Qed.
 Print Assumptions C16_not_modified_iff.
 
 Theorem C16_not_modified_oracle : forall rt files path ims rng fp f size mtime,
   sanitize (length (r_prefix rt)) (has_fb rt) (r_dir rt) path = Some fp ->
   opened_file rt files fp = Some (f, (size, mtime)) ->
-  (serve rt files false path ims rng = R304 f <-> not_modified mtime ims = true).
+  (serve rt files false path ims rng = R304 f <-> not_modified mtime (ims_time ims) = true).
 Proof. exact not_modified_oracle. Qed.
 Print Assumptions C16_not_modified_oracle.
 
